@@ -359,7 +359,14 @@ func (o *obs) distancesCase(class string, x, a, b s2.Point) {
 	if sy != -lex {
 		cl.Violate("symbolicCompareDistances.order", "symbolicCompareDistances is not the reversed lexicographic order of a and b", r)
 	}
-	if isUnit(x) && isUnit(a) && isUnit(b) {
+	if isUnit(x) && isUnit(a) && isUnit(b) && !(normalized(x) && normalized(a) && normalized(b)) {
+		// IsUnit holds but the points are not normalized to a few ulps: known finding, the
+		// predicates then compare un-normalized dot products
+		if (or != 0 && cd != or) || (or == 0 && cd != -lex) {
+			cl.Violate("CompareDistances.notNormalized", "CompareDistances is not the exact comparison for points that pass IsUnit but are not normalized to | |p|^2-1 | <= 2^-50", r)
+		}
+	}
+	if normalized(x) && normalized(a) && normalized(b) {
 		if tc != 0 && tc != or {
 			cl.Violate("triageCompareCosDistances.wrong", "cos triage returned a non-zero answer that is not the exact comparison (H-TRIAGE-COS)", r)
 		}
@@ -416,7 +423,10 @@ func (o *obs) distanceCase(class string, x, y s2.Point, r2 float64) {
 			cl.Violate("exactCompareDistance.exact", "exactCompareDistance is not the exact comparison", r)
 		}
 	}
-	if isUnit(x) && isUnit(y) && r2 >= 0 && r2 <= 4 {
+	if isUnit(x) && isUnit(y) && !(normalized(x) && normalized(y)) && r2 >= 0 && r2 <= 4 && cd != or {
+		cl.Violate("CompareDistances.notNormalized", "CompareDistance is not the exact comparison for points that pass IsUnit but are not normalized to | |p|^2-1 | <= 2^-50", r)
+	}
+	if normalized(x) && normalized(y) && r2 >= 0 && r2 <= 4 {
 		if tc != 0 && tc != or {
 			cl.Violate("triageCompareCosDistance.wrong", "cos triage returned a wrong non-zero answer (H-TRIAGE-COS)", r)
 		}
